@@ -128,7 +128,7 @@ func irDeclStructs(n string) bool {
 	switch n {
 	case "GlobalVariable", "LocalVariable", "FunctionArgument", "FunctionResult", "StructMember",
 		"ImageType", "SamplerType", "ArrayType", "MatrixType", "VectorType", "ScalarType", "AtomicType",
-		"SwitchCase", "Override":
+		"SwitchCase", "Override", "EntryPoint", "EarlyDepthTest":
 		return true
 	}
 	return false
